@@ -574,6 +574,11 @@ impl Machine {
         // NOTE: create a choice point to terminate the dispatch_loop
         // if an exception is thrown.
 
+        // the heap below the stub choice point holds the cell reserved by the
+        // runtime and the pre-allocated `error(resource_error(memory), [])`:
+        // popping the stub must not truncate them away.
+        let h = self.machine_st.heap.cell_len();
+
         let stub_b = self.machine_st.stack.allocate_or_frame(0)?;
         let or_frame = self.machine_st.stack.index_or_frame_mut(stub_b);
 
@@ -585,7 +590,7 @@ impl Machine {
         or_frame.prelude.boip = 0;
         or_frame.prelude.biip = 0;
         or_frame.prelude.tr = 0;
-        or_frame.prelude.h = 0;
+        or_frame.prelude.h = h;
         or_frame.prelude.b0 = 0;
         or_frame.prelude.attr_var_queue_len = 0;
 
